@@ -56,8 +56,12 @@ Definition range_step (a b s : nat) : list nat :=
 Definition index {A} (l : list A) (i : nat) : M A :=
   match nth_error l i with Some x => ret x | None => raise IndexError end.
 
-(* x.fitness.values[c]  (getattr(x, fit_attr).values[c]) *)
-Definition value_at (w : list Q) (x : ind) (c : nat) : M Q := index (values w x) c.
+(* [x for x in l if f(x)] with a condition that can raise: decided element by element, in order *)
+Fixpoint filterM {A} (f : A -> M bool) (l : list A) : M (list A) :=
+  match l with
+  | [] => ret []
+  | x :: r => b <- f x ;; ys <- filterM f r ;; ret (if b then x :: ys else ys)
+  end.
 
 (* a / b on floats *)
 Definition qdivM (a b : Q) : M Q :=
